@@ -676,7 +676,7 @@ def geometry_from_meta(meta_data, return_index=False, nc=384, sort=True):
     major_version = _get_neuropixel_major_version_from_meta(meta_data)
     if cm is None or all(map(lambda x: x is None, cm.values())):
         _logger.warning("Meta data doesn't have geometry (snsShankMap/snsGeomMap field), returning defaults")
-        if major_version is None:
+        if major_version is None or _get_type_from_meta(meta_data) == "nidq":
             if return_index:
                 return None, None
             else:
